@@ -68,15 +68,22 @@ theorem sigsOf_mid (es1 es2 : List Entry) (x : Entry) (hx : isGpgName x.name = t
     sigsOf (es1 ++ x :: es2) = sigsOf es1 ++ (x.name.drop 4, x.body) :: sigsOf es2 := by
   simp [sigsOf, List.filter_append, List.filter_cons, hx]
 
+/-- the duplicate-name test of `Verify` does not look at `_gpg*` members -/
+theorem distinctNames_skip (es1 es2 : List Entry) (x : Entry) (hx : isGpgName x.name = true) :
+    distinctNames (es1 ++ x :: es2) = distinctNames (es1 ++ es2) := by
+  simp [distinctNames, List.filter_append, List.filter_cons, hx]
+
 /-- **deb_sign_then_verify.** For every tight archive the reader accepts, whose member names `Sign` (cleaned) and `Verify`
     (raw) classify alike, and every role that `path.Clean` leaves alone: after `Sign` + patch application
-    (1) `Verify`'s walk neither panics nor stops early; (2) the signature it keeps for the role is the document `cs` returned
+    (1) `Verify`'s walk neither panics nor stops early, and the duplicate-name refusal (fix for F40) does not fire when the
+    input's digested members have distinct names; (2) the signature it keeps for the role is the document `cs` returned
     for the message; (3) the name → digest table it builds is, entry by entry and in order, the `Files:` lines of that message.
     Hence the role's outcome is `checkSig (text) (the signed lines)` whenever the PGP layer accepts the document, and
     `err pgp` otherwise. -/
 theorem deb_sign_then_verify (H1 H2 cs ctl) (pgp : Bytes → Option Bytes) (mt signer date role f : Bytes) (o : SignOut) (es : List Entry)
     (h8 : 8 ≤ f.length) (he : entries f = (es, .eof)) (ht : Tight (f.drop 8) es)
     (hp : ∀ x ∈ es, isGpgName x.name = isGpgName (pathClean x.name))
+    (hdn : distinctNames es = true)
     (hc : pathClean (gpg ++ role) = gpg ++ role)
     (hs : sign H1 H2 cs ctl mt signer date role f = .ok o)
     (hrb : ReadsBack (gpg ++ role) mt (cs (message H1 H2 signer date role (linesOf es)))) :
@@ -97,14 +104,21 @@ theorem deb_sign_then_verify (H1 H2 cs ctl) (pgp : Bytes → Option Bytes) (mt s
   have hgn : isGpgName (gpg ++ role) = true := C08.isPrefix_append gpg role
   have hd0 := digests_eq_lines H1 H2 es hp
   have core : ∃ es1 es2, entries g = (es1 ++ newEntry (gpg ++ role) mt S :: es2, .eof) ∧
-      (∀ x ∈ es2, pathClean x.name ≠ gpg ++ role) ∧ digestsOf H1 H2 (es1 ++ es2) = lines := by
+      (∀ x ∈ es2, pathClean x.name ≠ gpg ++ role) ∧ digestsOf H1 H2 (es1 ++ es2) = lines ∧
+      distinctNames (es1 ++ es2) = true := by
     rcases k with ⟨_, _, c⟩ | ⟨es1, e, es2, a, b, c, _, _, d⟩
-    · exact ⟨es, [], by simpa using c, by simp, by simpa using hd0⟩
-    · refine ⟨es1, es2, d, c, ?_⟩
-      have hraw : isGpgName e.name = true := by
+    · exact ⟨es, [], by simpa using c, by simp, by simpa using hd0, by simpa using hdn⟩
+    · have hraw : isGpgName e.name = true := by
         rw [hp e (by rw [a]; simp), b]; exact hgn
-      rw [← digestsOf_skip H1 H2 es1 es2 e hraw, ← a]; exact hd0
-  obtain ⟨es1, es2, hent, hn2, hdig⟩ := core
+      refine ⟨es1, es2, d, c, ?_, ?_⟩
+      · rw [← digestsOf_skip H1 H2 es1 es2 e hraw, ← a]; exact hd0
+      · rw [← distinctNames_skip es1 es2 e hraw, ← a]; exact hdn
+  obtain ⟨es1, es2, hent, hn2, hdig, hdist⟩ := core
+  have hdg2 : distinctNames (entries g).1 = true := by
+    rw [hent]
+    simp only
+    rw [distinctNames_skip es1 es2 _ (by simpa [newEntry] using hgn)]
+    exact hdist
   have hstop : (entries g).2 = .eof := by rw [hent]
   have hsz : ∀ e ∈ (entries g).1, 0 ≤ e.size := kt.1
   have hsig : lookup role (sigsOf (entries g).1) = some S := by
@@ -129,7 +143,7 @@ theorem deb_sign_then_verify (H1 H2 cs ctl) (pgp : Bytes → Option Bytes) (mt s
     exact hdig
   refine ⟨hap, ?_, hsig, hdg, ?_⟩
   · unfold verify
-    simp only [verifyFail_tight _ hsz, hstop]
+    simp only [verifyFail_tight _ hsz, hstop, hdg2]
     exact ⟨_, rfl⟩
   · unfold checkRole
     rw [hsig, hdg]
